@@ -158,6 +158,15 @@ func (w *World) scan() {
 	w.scanned = w.N.Height()
 }
 
+// ReceivePending receives everything confirmed for key's account.
+func (w *World) ReceivePending(key *wallet.KeyPair) {
+	w.scan()
+	for _, h := range w.Pending[key.Address] {
+		w.submit("receive", key, &nom.AccountBlock{BlockType: nom.BlockTypeUserReceive, FromBlockHash: h})
+	}
+	w.Pending[key.Address] = nil
+}
+
 func (w *World) keyOf(a types.Address) *wallet.KeyPair {
 	for _, k := range g.AllKeyPairs {
 		if k.Address == a {
